@@ -566,10 +566,10 @@ fn frame_systems() -> (Vec<WorldSys<'static, FrameMon>>, std::collections::HashM
     let mut systems: Vec<_> = built.into_iter().map(|(s, _)| s).collect();
     for s in &mut systems {
         s.cfg.node.domain = 9;
-        s.cfg.node.sdo = 0x2a7;
+        s.cfg.node.sdo = 0xea7;
         for p in &mut s.cfg.peers {
             p.domain = 9;
-            p.sdo = 0x2a7;
+            p.sdo = 0xea7;
         }
     }
     (systems, depths)
